@@ -42,8 +42,42 @@ def _wrap(idx):
     # fn and shards are inherited through fork (closures and big shards need no pickling)
     try:
         return idx, _FN(_SHARDS[idx]), None
-    except BaseException:
+    except BaseException as e:
+        crash = crash_partial(e)
+        if crash is not None:
+            return idx, crash, None
         return idx, None, traceback.format_exc()
+
+
+def impl_origin(exc):
+    """If the exception was raised inside a call into the implementation under test (a pybufrkit frame lies below the
+    last frame of the checking code), return 'ExcType|file:function' of the innermost implementation frame."""
+    from mc import REPO
+    impl_root = os.path.join(os.path.realpath(REPO), 'pybufrkit') + os.sep
+    mc_root = os.path.dirname(os.path.dirname(os.path.abspath(__file__))) + os.sep
+    frames = traceback.extract_tb(exc.__traceback__)
+    last_mc = max([i for i, f in enumerate(frames) if os.path.abspath(f.filename).startswith(mc_root)] or [-1])
+    inner = [f for f in frames[last_mc + 1:] if os.path.realpath(f.filename).startswith(impl_root)]
+    if not inner:
+        return None
+    f = inner[-1]
+    return '%s|%s:%s' % (type(exc).__name__, os.path.basename(f.filename), f.name)
+
+
+def crash_partial(exc):
+    """An exception that escapes from the implementation where the check expected none is a verdict about the
+    implementation (reported as a violation), not a failure of the harness."""
+    if isinstance(exc, (KeyboardInterrupt, SystemExit, MemoryError)):
+        return None
+    origin = impl_origin(exc)
+    if origin is None:
+        return None
+    from mc.engine.harness import Partial
+    p = Partial()
+    p.n['crashed_shards'] += 1
+    tb = ''.join(traceback.format_exception(type(exc), exc, exc.__traceback__))[-3000:]
+    p.violation('impl-crash|' + origin, {'$crash': origin}, tb)
+    return p
 
 
 def run_shards(fn, shards, nproc=None, chunksize=1):
@@ -52,7 +86,12 @@ def run_shards(fn, shards, nproc=None, chunksize=1):
     out = [None] * len(shards)
     if nproc <= 1 or len(shards) <= 1:
         for i, s in enumerate(shards):
-            out[i] = fn(s)
+            try:
+                out[i] = fn(s)
+            except Exception as e:
+                out[i] = crash_partial(e)
+                if out[i] is None:
+                    raise
         return out
     global _FN, _SHARDS
     ctx = mp.get_context('fork')
